@@ -1,0 +1,55 @@
+//go:build verif
+
+// Machine-checked contracts for package dynblock (see /verif/DESIGN.md).
+// This file contains comments only; it is compiled only with the "verif"
+// build tag and changes nothing in the package.
+
+package dynblock
+
+// verif:unit U13 props=C04,C06,C18,C17
+
+// prepared(b, raw): the attribute map obtained by hiding, iterator-wrapping and
+// mark-wrapping the raw attributes of expanded body b (what prepareAttributes returns).
+// verif:specfunc prepared(b ref, raw ref) ref
+
+// verif:func (*expandBody).extendSchema
+//@ trusted
+//@ assigns nothing
+//@ ensures ret != nil
+
+// verif:func (*expandBody).expandBlocks
+//@ trusted
+//@ assigns nothing
+//@ ensures ret1 == nil || fresh(ret1)
+
+// verif:func (*expandBody).prepareAttributes
+//@ trusted
+//@ assigns nothing
+//@ ensures ret == prepared(b, rawAttrs)
+
+// PartialContent: the remaining body is a fresh expandBody that agrees with the
+// receiver on every configuration field (original body, for_each context,
+// iteration, for_each checks and value marks); its hidden sets are fresh maps
+// (never shared with the receiver); the receiver is not written.
+// verif:func (*expandBody).PartialContent
+//@ requires b.original != nil && schema != nil
+//@ assigns nothing
+//@ ensures kind: typeis(ret1, ptr(expandBody)) && unbox(ret1, ptr(expandBody)) != nil && fresh(unbox(ret1, ptr(expandBody)))
+//@ ensures original: unbox(ret1, ptr(expandBody)).original == b.original
+//@ ensures ctx: unbox(ret1, ptr(expandBody)).forEachCtx == b.forEachCtx
+//@ ensures iteration: unbox(ret1, ptr(expandBody)).iteration == b.iteration
+//@ ensures checks: unbox(ret1, ptr(expandBody)).checkForEach == b.checkForEach
+//@ ensures marks: unbox(ret1, ptr(expandBody)).valueMarks == b.valueMarks
+//@ ensures hiddenFresh: fresh(unbox(ret1, ptr(expandBody)).hiddenAttrs) && fresh(unbox(ret1, ptr(expandBody)).hiddenBlocks)
+//@ ensures attrs: ret0 != nil && (exists raw ref :: ret0.Attributes == prepared(b, raw))
+
+// verif:func (*expandBody).Content
+//@ requires b.original != nil && schema != nil
+//@ assigns nothing
+//@ ensures attrs: ret0 != nil && (exists raw ref :: ret0.Attributes == prepared(b, raw))
+
+// Uniform preparation: every path that hands out attributes applies prepareAttributes.
+// verif:func (*expandBody).JustAttributes
+//@ requires b.original != nil
+//@ assigns nothing
+//@ ensures attrs: exists raw ref :: ret0 == prepared(b, raw)
